@@ -1925,7 +1925,9 @@ def c16(ctx):
                            "is not valid Go, at the first, middle and last position of a 3..5 file run; a missing path argument; a missing "
                            "patch file; a patches-file naming a missing patch; an unreadable target (run as uid 65534); a target whose temporary "
                            "sibling cannot be created (250-byte name; read-only directory with a writable file, as uid 65534) with a patch "
-                           "that shrinks the file; and a write cut short by RLIMIT_FSIZE at several byte counts.")
+                           "that shrinks the file; a write cut short by RLIMIT_FSIZE at several byte counts; the system calls of the write protocol "
+                           "(write, fchmod, close, renameat, unlinkat) made to fail one at a time with strace fault injection, incl. an interrupted "
+                           "write; stdout full; and the library keeping results across calls.")
     rng = random.Random(ctx.seed)
     cases = gen_cases(ctx, "mix", 120 if ctx.tier == "quick" else 1500, ctx.seed)
     good = matching_cases(ctx, cases, 4 if ctx.tier == "quick" else 40, rng)
@@ -1997,6 +1999,52 @@ def c16(ctx):
                           {"input": {"args": args, "files": {"a.go": "package a", "p.patch": "...", "list.txt": "p.patch\\nnope.patch"}}})
         if cl.digest(root) != before:
             ctx.violation(f"gopatch {' '.join(args)} --print-only modified the directory", {"input": {"args": args}})
+    # system calls of the write protocol made to fail one at a time (strace fault injection): whatever fails, the target holds
+    # its old bytes or its complete new bytes, the failure is reported with the file's name, later files are still processed
+    if shutil.which("strace"):
+        a0, b0 = "package a\n\nfunc f() { foo(1) }\n", "package a\n\nfunc g() {\n\tfoo(2)\n\tfoo(3)\n}\n"
+        a1, b1 = a0.replace("foo(", "barbaz("), b0.replace("foo(", "barbaz(")
+        # (strace counts calls per thread, so "the n-th call" may hit one file or the other: what is required does not depend on it)
+        FAULTS = [(["write:error=ENOSPC:when=1"], "any"), (["write:error=EIO:when=1"], "any"), (["write:error=EINTR:when=1"], "none"),
+                  (["fchmod:error=EPERM"], "all"), (["renameat:error=EXDEV"], "all"), (["renameat:error=EACCES"], "all"),
+                  (["renameat:error=ENOSPC:when=2"], "any"), (["fchmod:error=EIO:when=2"], "any"), (["write:error=ENOSPC:when=2"], "any"),
+                  (["unlinkat:error=EPERM", "renameat:error=EACCES"], "all-leftover"), (["close:error=EIO:when=3"], "any"), (["close:error=EIO:when=4"], "any")]
+        probe = subprocess.run(["strace", "-f", "-o", "/dev/null", "-e", "trace=none", "true"], stdout=subprocess.PIPE, stderr=subprocess.PIPE)
+        for specs, which in (FAULTS if probe.returncode == 0 else []):
+            root = ctx.scratch("sysfault")
+            cl.write_tree(root, {"a.go": a0, "b.go": b0, "p.patch": "@@\nvar x expression\n@@\n-foo(x)\n+barbaz(x)\n"})
+            cmd = ["strace", "-f", "-o", "/dev/null"] + [x for sp in specs for x in ("-e", "inject=" + sp)] + [ctx.gopatch, "-p", "p.patch", "a.go", "b.go"]
+            r = subprocess.run(cmd, cwd=root, stdout=subprocess.PIPE, stderr=subprocess.PIPE, timeout=120, env=dict(os.environ, GOMAXPROCS="1"))
+            e = r.stderr.decode("utf-8", "replace")
+            ga, gb = open(os.path.join(root, "a.go")).read(), open(os.path.join(root, "b.go")).read()
+            left = [n for n in os.listdir(root) if n.endswith(".tmp")]
+            ctx.evaluations += 1
+            ctx.count("syscall_faults")
+            ctx.nontrivial.add("sysfault:" + ",".join(specs))
+            probs = []
+            kept = 0
+            for nm, got, old_, new_ in (("a.go", ga, a0, a1), ("b.go", gb, b0, b1)):
+                if got == old_:
+                    kept += 1
+                    if f'"{os.path.join(root, nm)}"' not in e and nm not in e:
+                        probs.append(f"{nm} was not rewritten and stderr does not say so")
+                elif got == new_:
+                    if f"could not write \"{os.path.join(root, nm)}\"" in e:
+                        probs.append(f"{nm} holds its new bytes but is reported as not written")
+                else:
+                    probs.append(f"{nm} holds neither its old nor its new bytes ({len(got)} bytes)")
+            if (kept > 0) != (r.returncode != 0):
+                probs.append(f"exit status {r.returncode} with {kept} file(s) not rewritten")
+            if which in ("all", "all-leftover") and kept != 2:
+                probs.append("a step of the write protocol that fails for every file left a file rewritten")
+            if which == "none" and (kept or e.strip()):
+                probs.append(f"an interrupted write (EINTR) is retried by the runtime; exit {r.returncode}, stderr {e.strip()[:120]!r}")
+            if left and which != "all-leftover":
+                probs.append(f"temporary files left behind: {left}")
+            if probs:
+                ctx.violation("; ".join(probs[:3]), {"fault": "syscall:" + ",".join(specs), "input": {"run": " ".join(cmd[:-4]) + " gopatch -p p.patch a.go b.go"},
+                                                      "stderr": e[-600:]})
+            shutil.rmtree(root, ignore_errors=True)
     # the patched bytes cannot be delivered: stdout is full (--print-only and --diff write there)
     if os.path.exists("/dev/full"):
         root = ctx.scratch("fullout")
